@@ -196,9 +196,17 @@ pub fn run_case(focus: &str, seed: u64) -> (RunReport, Value) {
         let sc = checker_level::gen_checker(seed);
         return (ck_report(checker_level::run_checker(&sc)), serde_json::to_value(&sc).unwrap());
     }
-    if focus == "C18" {
+    if focus == "C18" || focus == "C08" {
         let mut sc = regharness::gen_reg(seed);
-        let out = regharness::run_reg(&sc);
+        if focus == "C08" {
+            sc.servers = 1;
+            sc.modes.truncate(1);
+            if sc.net == "dup" {
+                sc.net = "nondup".to_string();
+            }
+        }
+        let mut out = regharness::run_reg(&sc);
+        out.violations.retain(|x| x.property == focus);
         if !out.violations.is_empty() {
             sc.picks = Some(out.taken.clone());
         }
@@ -245,9 +253,11 @@ pub fn replay(focus: &str, scenario: &Value) -> Result<RunReport, String> {
         let sc: checker_level::CheckerScenario = serde_json::from_value(scenario.clone()).map_err(|e| e.to_string())?;
         return Ok(ck_report(checker_level::run_checker(&sc)));
     }
-    if focus == "C18" {
+    if focus == "C18" || focus == "C08" {
         let sc: regharness::RegScenario = serde_json::from_value(scenario.clone()).map_err(|e| e.to_string())?;
-        return Ok(reg_report(regharness::run_reg(&sc)));
+        let mut out = regharness::run_reg(&sc);
+        out.violations.retain(|x| x.property == focus);
+        return Ok(reg_report(out));
     }
     if focus == "C16" {
         let sc: orl::OrlScenario = serde_json::from_value(scenario.clone()).map_err(|e| e.to_string())?;
